@@ -414,12 +414,12 @@ void reb_integrator_trace_bs_step(struct reb_simulation* const r, double dt){
         nbody_ode->derivatives = reb_integrator_trace_nbody_derivatives;
         nbody_ode->needs_nbody = 0;
 
-        // TODO: Support backwards integrations
-        while(r->t < t_needed && fabs(dt/old_dt)>1e-14 ){
+        const double dtsign = copysign(1.,dt); // Used to determine integration direction
+        while(dtsign*r->t < dtsign*t_needed && fabs(dt/old_dt)>1e-14 ){
             double* y = nbody_ode->y;
 
             // In case of overshoot
-            if (r->t + dt >  t_needed){
+            if (dtsign*(r->t + dt) >  dtsign*t_needed){
                 dt = t_needed - r->t;
             }
 
@@ -725,15 +725,16 @@ static void reb_integrator_trace_step(struct reb_simulation* const r){
         const double old_t = r->t;
         r->gravity = REB_GRAVITY_BASIC;
         r->ri_trace.mode = REB_TRACE_MODE_FULL; // for collision search
+        const double dtsign = copysign(1.,old_dt); // Used to determine integration direction
 	reb_integrator_trace_dh_to_inertial(r);
         switch (r->ri_trace.peri_mode){
             case REB_TRACE_PERI_FULL_IAS15:
                 // Run default IAS15 integration
                 reb_integrator_ias15_reset(r);
-                while(r->t < t_needed && fabs(r->dt/old_dt)>1e-14 ){
+                while(dtsign*r->t < dtsign*t_needed && fabs(r->dt/old_dt)>1e-14 ){
                     reb_simulation_update_acceleration(r);
                     reb_integrator_ias15_part2(r);
-                    if (r->t+r->dt >  t_needed){
+                    if (dtsign*(r->t+r->dt) >  dtsign*t_needed){
                         r->dt = t_needed-r->t;
                     }
                     reb_collision_search(r);
@@ -749,7 +750,7 @@ static void reb_integrator_trace_step(struct reb_simulation* const r){
                     struct reb_ode* nbody_ode = NULL;
 
                     double* y;
-                    while(r->t < t_needed && fabs(r->dt/old_dt)>1e-14 ){
+                    while(dtsign*r->t < dtsign*t_needed && fabs(r->dt/old_dt)>1e-14 ){
                         if (!nbody_ode || nbody_ode->length != 6*r->N){
                             if (nbody_ode){
                                 reb_ode_free(nbody_ode);
